@@ -453,6 +453,35 @@ theorem C08_no_smuggling (cfg : Cfg) (ps : List Plugin) (st : St) (raw : Bytes) 
     · rw [ht] at h; cases h
     · exact absurd h hu
 
+theorem firstStep_upgraded (cfg : Cfg) (ps : List Plugin) (st : St) (r : Req) (ok : Bool) :
+    (firstStep cfg ps st r ok).1.upgraded = st.upgraded := by
+  rw [firstStep_eq]; split <;> simp [raise_upgraded]
+
+/-- **C08 an upgrade offer in the first request changes nothing.**  Whatever the
+first request of a connection carries — in particular `Connection: Upgrade` /
+`Upgrade: …` headers (websocket or h2c offers) — it never switches the connection
+to raw relay (only a *forwarded follow-up* upgrade request does): on a
+non-tunnel connection every later request, one per read or packed, is still
+forwarded rebuilt without `proxy-authorization` / `proxy-connection`, as long as
+no follow-up upgrade request is forwarded. -/
+theorem C08_first_request_upgrade_still_stripped (cfg : Cfg) (ps : List Plugin) (r : Req) (ok : Bool)
+    (raw : Bytes) (more : List (Req × Bytes))
+    (ht : (firstStep cfg ps {} r ok).1.tunnel = false)
+    (hu : ∀ q ∈ more, ∀ y, (creqChain ps q.1).2 = .done y → (fwdLater y).isUpgrade = false) :
+    (firstStep cfg ps {} r ok).1.upgraded = false ∧
+    ∀ x ∈ upBytes (step cfg ps (firstStep cfg ps {} r ok).1 (.cdata raw more)).2,
+      ∃ z, Clean z ∧ x = z.build cfg.disableHeaders := by
+  have hup : (firstStep cfg ps {} r ok).1.upgraded = false := by rw [firstStep_upgraded]
+  refine ⟨hup, C08_no_smuggling cfg ps _ raw more ht ?_⟩
+  rintro (h | ⟨q, hq, y, hy, hiu⟩)
+  · rw [hup] at h; cases h
+  · rw [hu q hq y hy] at hiu; cases hiu
+
+/-- the statement is about requests that *are* upgrade offers too -/
+example : ({ method := b "GET", path := b "/", version := Px.Gen.http11, host := b "h", port := 80, tunnel := false,
+             headers := parseHeaders [b "Connection: keep-alive, Upgrade", b "Upgrade: h2c"], body := [] } : Req).isUpgrade
+    = true := by decide +kernel
+
 /-- a `Clean` request really loses the credentials on the wire: no header line
 built from it was filed under `proxy-authorization` -/
 theorem C08_clean_build (z : Req) (hz : Clean z) (dis : List Bytes) (kv : Bytes × Bytes)
